@@ -315,6 +315,9 @@ class Run:
 
     # -- finish
     def finish(self, explanation, trusted_base, not_decided=(), exhaustive=False):
+        # the idealisation of DESIGN 1.3, stated in every evidence file: values are compared as real numbers / exact integers
+        # (structurally only where the property itself speaks of identical results: operator spellings, Sum, copy provenance)
+        not_decided = list(not_decided) + ['floating-point evaluation of an identity that holds over the reals: rounding, cancellation, overflow or underflow of intermediates, fused multiply-add, signed zero (adversarial seeds C01-u, C02-u, C04-u, C08-u, C09-u, C10-v, C11-u, C15-u are of this kind and are not detected)']
         viol = [o for o in self.obligations if not o['ok']]
         outdir = os.path.join(os.environ.get('VERIF_OUT_DIR', os.path.join(VERIF, 'out')), self.prop)
         os.makedirs(outdir, exist_ok=True)
@@ -1062,9 +1065,10 @@ def check_value(run, S, name, expected, rule='K3 ring conformance', post=None, a
     for li, (guards, leaf) in enumerate(rets):
         if len(rets) > 1 and path_infeasible(S, guards):
             continue
-        eqs = _leaf_equalities(S, guards) if len(rets) > 1 else {}
-        if len(rets) > 1 and not eqs and any(kind == 'ite' for kind, _, _ in guards) and False:
-            pass
+        # K1 (copy provenance) asks WHICH component a result is, not what it is worth: that two components compare equal on a path
+        # (`if a != b { swap }`: +0.0 == -0.0, yet they are different values) is no licence to deliver the other one
+        copy_rule = rule.startswith('K1')
+        eqs = _leaf_equalities(S, guards) if len(rets) > 1 and not copy_rule else {}
         cv0 = Conv(S, field_div=field_div)
         env = {}
         mapping = {}
@@ -1072,11 +1076,11 @@ def check_value(run, S, name, expected, rule='K3 ring conformance', post=None, a
             e_ = cv0.el(tid)
             env[an] = e_
             mapping[A.CTX.atom(an)] = e_
-        if len(rets) > 1:
+        if len(rets) > 1 and not copy_rule:
             _linear_path_substitutions(S, guards, cv0, env, mapping)
         cv = Conv(S, env=env, field_div=field_div) if env else cv0
         suffix = '' if len(rets) == 1 else ':path%d' % li
-        with path_hyps(S, guards if len(rets) > 1 else (), field_div=field_div, nz_guards=guards):
+        with path_hyps(S, guards if len(rets) > 1 and not copy_rule else (), field_div=field_div, nz_guards=guards):
             if expected is not None:
                 ok = cmp_struct(run, S, name + suffix, cv.val(leaf['v']), _subst_struct(expected, mapping), rule, where=r.get('span')) and ok
             if post is not None:
